@@ -1010,7 +1010,7 @@ class _AsyncConnectionWrapper:
                         ts_expected = seq / self.connection.output_node.rate + phase
                         if ts_expected > ts_step:
                             break
-                        if ts_recv > ts_step:
+                        if ts_recv > ts_step or (self.connection.skip and ts_recv == ts_step):
                             break
                         num_msgs += 1
                 else:  # self.jitter in [LATEST]:
